@@ -55,8 +55,8 @@ impl Check for C09 {
     }
     fn budget(&self, tier: Tier) -> u64 {
         match tier {
-            Tier::Quick => 60_000,
-            Tier::Thorough => 3_000_000,
+            Tier::Quick => 300_000,
+            Tier::Thorough => 6_000_000,
         }
     }
     fn run(&self, ch: &mut Chooser, _tier: Tier) -> RunOutcome {
